@@ -13,7 +13,7 @@ pub const BEHAVIOURS: [&str; 7] = ["connect-close", "garbage", "plain-http", "tl
 /// heavier behaviours, used by the random histories only (the enumeration stays 7^k):
 /// a foreign ALPN offer whose single name is 200 octets long / is not UTF-8; 400 quick failed connections on 8 threads (cumulative
 /// effects); more silent connections than the responder has descriptors (accept fails with EMFILE), closed again before going on
-pub const HEAVY: [&str; 4] = ["tls-long-alpn", "tls-binary-alpn", "400-quick-failures", "fd-burst"];
+pub const HEAVY: [&str; 6] = ["tls-long-alpn", "tls-binary-alpn", "400-quick-failures", "fd-burst", "400-resets", "odd-sni"];
 /// descriptor limit given to tacd when the history holds an fd-burst (plus 50 per 50-stalled step, which keeps its connections open)
 const NOFILE_BASE: u64 = 64;
 
@@ -75,11 +75,16 @@ fn client_hello(sni: &str) -> Vec<u8> {
 
 /// ClientHello offering a single ALPN protocol name
 fn client_hello_alpn(sni: &str, p: &[u8]) -> Vec<u8> {
+	client_hello_raw(sni.as_bytes(), p)
+}
+
+/// ClientHello with arbitrary octets as server name and a single ALPN protocol name
+fn client_hello_raw(sni: &[u8], p: &[u8]) -> Vec<u8> {
 	let mut ext = vec![];
 	// server_name
 	let mut sn = vec![0u8];
 	sn.extend((sni.len() as u16).to_be_bytes());
-	sn.extend(sni.as_bytes());
+	sn.extend(sni);
 	let mut snl = (sn.len() as u16).to_be_bytes().to_vec();
 	snl.extend(sn);
 	ext.extend([0, 0]);
@@ -189,6 +194,41 @@ fn behave(b: &str, t: &Target, stalled: &mut Vec<Conn>) {
 				}
 			});
 		}
+		"400-resets" => {
+			// connections reset right after the connect, many of them before the responder has accepted them
+			std::thread::scope(|s| {
+				for _ in 0..8 {
+					s.spawn(move || {
+						for _ in 0..50 {
+							if let Some(c) = Conn::open(t) {
+								c.reset();
+							}
+						}
+					});
+				}
+			});
+		}
+		"odd-sni" => {
+			// valid ClientHellos offering acme-tls/1 whose server name is long, not UTF-8, or has a multi-byte character
+			// across an offset where a log line might be cut
+			let mut names: Vec<Vec<u8>> = vec![vec![b'a'; 93], vec![0xff, 0xfe, 0x80, 0x2e, 0x63], vec![b'x'; 255], vec![]];
+			for cut in [16usize, 32, 48, 64, 80, 100, 128, 200, 250] {
+				for ch in ["\u{e9}", "\u{20ac}", "\u{1d11e}"] {
+					for back in 1..ch.len() {
+						let mut n = vec![b'a'; cut - back];
+						n.extend(ch.as_bytes());
+						n.extend(vec![b'b'; 12]);
+						names.push(n);
+					}
+				}
+			}
+			for n in names {
+				if let Some(mut c) = Conn::open(t) {
+					c.send(&client_hello_raw(&n, b"acme-tls/1"));
+					c.read_some_ms(25);
+				}
+			}
+		}
 		"fd-burst" => {
 			let mut held = vec![];
 			for _ in 0..(NOFILE_BASE as usize + stalled.len() + 100) {
@@ -294,7 +334,7 @@ fn all_histories(max_len: usize) -> Vec<Vec<String>> {
 }
 
 pub fn run(ctx: &Ctx, rep: &mut Report) {
-	rep.rule = "histories = ordered selections (with repetition) of 1..4 behaviours from the catalogue {TCP connect+close, garbage bytes, plain HTTP request, TLS handshake without ALPN, TLS handshake offering only h2/http/1.1, connection abandoned after a valid ClientHello, 50 concurrent stalled connections (half of them with half a ClientHello) kept open}: 7+49+343+2401 = 2800 per listener kind; each against a fresh tacd built in the shipped profile (release, panic=abort), followed by a valid acme-tls/1 handshake judged by C16's certificate oracle and a process-state check. quick: all histories of length <= 2 on both listeners plus random longer ones; thorough: all 2800 on TCP and on a unix socket. heavy: random histories of 1..5 steps that add four heavier behaviours: a foreign ALPN offer with a 200-octet / non-ASCII / non-UTF-8 protocol name, 400 quick failed connections from 8 threads (cumulative state), and an fd-burst (tacd runs with RLIMIT_NOFILE=64(+50 per stalled step); 164+ silent connections are opened so that accept(2) fails with EMFILE, and closed again before the history goes on). Every case is non-trivial (each ends with the validation that must still work).".into();
+	rep.rule = "histories = ordered selections (with repetition) of 1..4 behaviours from the catalogue {TCP connect+close, garbage bytes, plain HTTP request, TLS handshake without ALPN, TLS handshake offering only h2/http/1.1, connection abandoned after a valid ClientHello, 50 concurrent stalled connections (half of them with half a ClientHello) kept open}: 7+49+343+2401 = 2800 per listener kind; each against a fresh tacd built in the shipped profile (release, panic=abort), followed by a valid acme-tls/1 handshake judged by C16's certificate oracle and a process-state check. quick: all histories of length <= 2 on both listeners plus random longer ones; thorough: all 2800 on TCP and on a unix socket. heavy: random histories of 1..5 steps that add four heavier behaviours: a foreign ALPN offer with a 200-octet / non-ASCII / non-UTF-8 protocol name, 400 quick failed connections from 8 threads (cumulative state), 400 connections reset right after the connect (8 threads), ClientHellos offering acme-tls/1 whose server name is long, not UTF-8 or has a multi-byte character across offsets 16..250, and an fd-burst (tacd runs with RLIMIT_NOFILE=64(+50 per stalled step); 164+ silent connections are opened so that accept(2) fails with EMFILE, and closed again before the history goes on). Every case is non-trivial (each ends with the validation that must still work).".into();
 	run_replays::<Case>(ctx, rep, "enum", &exec);
 	run_replays::<Case>(ctx, rep, "random", &exec);
 	run_replays::<Case>(ctx, rep, "heavy", &exec);
